@@ -38,7 +38,7 @@ def run : List String → List PEv → Option (List String)
     successful return of the two pipe constructors; the names of the locals do not matter) -/
 def expectedHeld (p : Path) : Nat :=
   if p.1 = "janet_make_pipe" ∧ p.2.1 = "return" ∧ p.2.2.1 = "0" then 2
-  else if p.1 = "make_pipes" ∧ p.2.1 = "return" ∧ p.2.2.1 = "handles[0]" then 2
+  else if p.1 = "make_pipes" ∧ p.2.1 = "return" ∧ p.2.2.1 ≠ "(-1)" then 2
   else 0
 
 def pathOk (p : Path) : Bool :=
